@@ -545,20 +545,25 @@ package rueidis
 // C07 — cached replies expire at the earlier of the client TTL and the server PTTL (message.go, lru.go).
 // The expiry of a cached message is the 56-bit little-endian number kept in RedisMessage.ttl (0 = none).
 //@ func RedisMessage.setExpireAt
+//@   safety C15
 //@   mode bv
 //@   modifies *m
 //@   ensures [C07 expiry-is-stored-exactly] (0 <= pttl && pttl < 72057594037927936) ==> m.getExpireAt() == pttl
 //@   ensures [C07 nothing-else-changes] m.typ == old(m.typ) && m.intlen == old(m.intlen) && m.bytes == old(m.bytes) && m.array == old(m.array) && m.attrs == old(m.attrs)
 
 //@ func RedisMessage.relativePTTL
+//@   safety C15
 //@   ensures [C07 remaining-life-is-expiry-minus-now] result == m.getExpireAt() - now.UnixMilli()
 
 //@ func RedisMessage.CachePXAT
+//@   safety C15
 //@   ensures [C07 pxat-is-the-stored-expiry] (m.getExpireAt() == 0 ==> result == -1) && (m.getExpireAt() != 0 ==> result == m.getExpireAt())
 //@ func RedisMessage.CachePTTL
+//@   safety C15
 //@   modifies *
 //@   ensures [C07 pttl-is-the-stored-expiry-minus-now-floored-at-zero where-defined] (m.getExpireAt() == 0 ==> result == -1) && (m.getExpireAt() != 0 ==> result == max(m.getExpireAt() - returned(UnixMilli), 0))
 //@ func RedisMessage.CacheTTL
+//@   safety C15
 //@   modifies *
 //@   ensures [C07 ttl-is-pttl-rounded-up-to-seconds where-defined] (returned(CachePTTL) <= 0 ==> ttl == returned(CachePTTL)) && (returned(CachePTTL) > 0 ==> (ttl * 1000 >= returned(CachePTTL) && (ttl - 1) * 1000 < returned(CachePTTL)))
 
